@@ -5,7 +5,7 @@
    (dotted JSON path, value) pairs of its JSON form plus its warnings. *)
 From Coq Require Import List Ascii String NArith ZArith Bool Arith.
 Import ListNotations.
-Require Import KV Parser.
+Require Import KV Parser IdCache ChkCache.
 Require MsgTypes Dec.
 Local Close Scope N_scope.
 Local Open Scope nat_scope.
@@ -216,7 +216,8 @@ Definition flat_eqb (a b : flat) : bool := sub_flat a b && sub_flat b a && (leng
 
 Inductive ecase :=
 | ECase (rs : list rec) (panicked : bool) (res : option flat) (ws : list str) (intact repeat_ok isolated : bool)
-| MCase (mode : N) (objtype_s filemode_s : string).
+| MCase (mode : N) (objtype_s filemode_s : string)
+| KCache (c : ccase).                                     (* a run of the id caches (C15) *)
 
 (* which = 0 : C09, 1 : C15 *)
 Definition judge_coalesce (which : N) (c : ecase) : N :=
@@ -237,6 +238,7 @@ Definition judge_coalesce (which : N) (c : ecase) : N :=
       else if beq objtype (spec_type mode) then 0%N
       else if beq objtype (gofilemode_type mode) then 102%N       (* known finding: every mode is classified as a regular file *)
       else 2%N
+  | KCache c => if (which =? 1)%N then judge_cache c else 0%N
   end.
 Definition judge_c09 := judge_coalesce 0.
 Definition judge_c15 := judge_coalesce 1.
